@@ -14,7 +14,7 @@ import lib  # noqa: E402
 
 CUSTOM = '''
 from replicat.backends.base import Backend
-class Custom(Backend, short_name='CUST'):
+class Custom(Backend):
     def __init__(self, connection_string, *, token='builtin-token', level=3, flag=False):
         self.connection_string, self.token, self.level, self.flag = connection_string, token, level, flag
     async def exists(self, name): return False
@@ -50,15 +50,15 @@ OPTIONS = {
         'profile': ('repository = "custom:conn-profile"', 'conn-profile'), 'default': ('repository = "custom:conn-default"', 'conn-default'),
         'builtin': 'CWD', 'get': lambda rec: rec['connection_string']},
     'token': {     # custom backend option (string)
-        'cli': (['--token', 'tok-cli'], 'tok-cli'), 'env': ({'CUST_TOKEN': 'tok-env'}, 'tok-env'),
+        'cli': (['--token', 'tok-cli'], 'tok-cli'), 'env': ({'CUSTOM_TOKEN': 'tok-env'}, 'tok-env'),
         'profile': ('token = "tok-profile"', 'tok-profile'), 'default': ('token = "tok-default"', 'tok-default'), 'builtin': 'builtin-token',
         'get': lambda rec: rec['backend'].token, 'backend': 'custom'},
     'level': {     # custom backend option (typed: the same coercion whichever source supplied it)
-        'cli': (['--level', '17'], 17), 'env': ({'CUST_LEVEL': '18'}, 18),
+        'cli': (['--level', '17'], 17), 'env': ({'CUSTOM_LEVEL': '18'}, 18),
         'profile': ('level = 19', 19), 'default': ('level = "20"', 20), 'builtin': 3,
         'get': lambda rec: rec['backend'].level, 'backend': 'custom'},
     'flag': {
-        'cli': (['--flag', 'true'], True), 'env': ({'CUST_FLAG': 'True'}, True),
+        'cli': (['--flag', 'true'], True), 'env': ({'CUSTOM_FLAG': 'True'}, True),
         'profile': ('flag = true', True), 'default': ('flag = "true"', True), 'builtin': False,
         'get': lambda rec: rec['backend'].flag, 'backend': 'custom'},
     'region': {    # s3c backend option
@@ -88,7 +88,7 @@ def run_main(argv, env, config_text, tmp):
     cfg.write_text(config_text)
     old_env, old_argv, old_handler = dict(os.environ), sys.argv, m._cmd_handler
     for k in list(os.environ):
-        if k.startswith(('REPLICAT_', 'CUST_', 'S3C_')):
+        if k.startswith(('REPLICAT_', 'CUSTOM_', 'Custom_', 'S3C_')):
             del os.environ[k]
     os.environ.update(env)
     sys.argv = ['replicat'] + argv
